@@ -261,8 +261,12 @@ def replay(rp):
     return bool(found)
 
 
+THOROUGH_C10 = dict(grids=THOROUGH['grids'],
+                    depth={'default': 3, '1x1o': 4, '1x1g': 4, '2x1g': 4, '1x2g': 4, '3x2g': 2})
+
+
 def cases_for(tier, mode, seed):
-    cfg = QUICK if tier == 'quick' else THOROUGH
+    cfg = QUICK if tier == 'quick' else (THOROUGH_C10 if mode == 'C10' else THOROUGH)
     M = load_mesh_module()
     cases = []
     for g in cfg['grids']:
